@@ -1,6 +1,6 @@
 (* C06 — deserialize and deserialization_schema agree on what is valid. *)
 From Coq Require Import List String ZArith Bool.
-From AV Require Import Core.Json Deser.Model Deser.Spec Schema.Json Schema.Build Schema.Proofs.
+From AV Require Import Core.Json Deser.Model Deser.Spec Schema.Json Schema.Build Schema.Proofs Schema.ConProofs Schema.ShapeProofs.
 Import ListNotations.
 
 (* a Literal / Enum schema accepts exactly the listed values (on the common domain: no integer-valued float) *)
@@ -26,3 +26,22 @@ Theorem C06_old_optional_merge_refuted :
     jvalid false [] 0 (old_optional_merge a b) d <> (jvalid false [] 0 a d || jvalid false [] 0 b d).
 Proof. exact old_optional_merge_refuted. Qed.
 Print Assumptions C06_old_optional_merge_refuted.
+
+(* the schema built for Union[t1..tn] accepts exactly the data accepted by the schema built for one of the ti: every
+   universe, options, reference set, definitions, nesting depth, datum (the builder's outputs have the shape the union
+   lemma needs: build_shape) *)
+Theorem C06_union_type_schema : forall u o refs ss ds f fuel ign ts d,
+  ts <> [] ->
+  jvalid ss ds f (build u o refs fuel ign (TUnion ts)) d
+  = existsb (fun t => jvalid ss ds f (build u o refs fuel false t) d) ts.
+Proof. exact union_type_schema. Qed.
+Print Assumptions C06_union_type_schema.
+
+(* full_schema(base, constraints): the constrained schema accepts exactly what the base schema and each constraint accept,
+   each constraint under the applicability rule of its keyword; multipleOf / pattern must not meet one of their kind *)
+Theorem C06_constraints_are_conjoined : forall ss ds fuel c kws d,
+  nullable kws = false -> mergeable_into (all_cons c) kws = true ->
+  jvalid ss ds fuel (apply_con (Some c) (JS kws)) d
+  = jvalid ss ds fuel (JS kws) d && forallb (fun k => con_valid k d) (all_cons c).
+Proof. exact apply_con_valid. Qed.
+Print Assumptions C06_constraints_are_conjoined.
